@@ -58,7 +58,7 @@ def rule_identifier_table(ck: Check, repo: Repo) -> None:
             for coll, base in (("project.license_map", "map"), ("project.licenses", "provided")):
                 added = any(e[-1] == ("ids-add", STRIP) or (e[0] == "each" and e[2] == ("ids-add", STRIP)) or
                             _innermost(e) == ("ids-add", STRIP) for e in it.events)
-                if text in (f"{{identifier}}.intersection({coll})", f"identifiers.intersection({coll})",
+                if text in (f"{{identifier}}.intersection({coll})",
                             f"any((i in {coll} for i in {{identifier}}))", f"{{identifier}} & set({coll})",
                             f"{{identifier}} & {coll}.keys()"):
                     return ("or", f"{base}_id", f"{base}_stripped") if added else f"{base}_id"
@@ -76,8 +76,8 @@ def rule_identifier_table(ck: Check, repo: Repo) -> None:
 
         def event(self, text, call, it):
             f = ast.unparse(call.func)
-            if f == "identifiers.add":
-                return ("ids-add", it.text(call.args[0]))
+            if isinstance(call.func, ast.Attribute) and call.func.attr == "add" and call.args and it.text(call.args[0]) == STRIP:
+                return ("ids-add", STRIP)
             m = re.fullmatch(r"report\.(bad_licenses|missing_licenses)\.add", f)
             if m:
                 return (m.group(1), it.text(call.args[0]))
@@ -233,9 +233,11 @@ def rule_unused(ck: Check, repo: Repo) -> None:
         fn = repo.func(q)
         ck.analysed_fn(q)
         comps = [n for n in ast.walk(fn) if isinstance(n, ast.SetComp)]
-        ok = len(comps) == 1 and ast.unparse(comps[0].elt) == elt and \
-            [(ast.unparse(g.target), ast.unparse(g.iter)) for g in comps[0].generators] == gens and \
-            not any(g.ifs for g in comps[0].generators)
+        ok = False
+        if len(comps) == 1 and len(comps[0].generators) == 2:
+            g1, g2 = comps[0].generators
+            ok = ast.unparse(g1.iter) == "self.file_reports" and ast.unparse(g2.iter) == f"{ast.unparse(g1.target)}.licenses_in_file" \
+                and ast.unparse(comps[0].elt) == ast.unparse(g2.target) and not g1.ifs and not g2.ifs
         r.instance(q, {"ok": ok})
         if not ok:
             r.violation(q, "used licences", "must be every identifier recorded in every file report", repo.loc(fn))
